@@ -488,12 +488,22 @@ func genCase(r *Rng) bcase {
 
 func gen(r *Rng, tier string, emit func(Sx)) {
 	r = NewRng(r.U64())
-	n := 300
+	n := 240
 	if tier == "thorough" {
 		n = 6000
 	}
-	for i := 0; i < n; i++ {
-		t := genCase(r.Fork())
+	np := 70
+	if tier == "thorough" {
+		np = 1500
+	}
+	genSstore(r.Fork(), tier, emit)
+	for i := 0; i < n+np; i++ {
+		var t bcase
+		if i < np {
+			t = genAuthProbe(r.Fork())
+		} else {
+			t = genCase(r.Fork())
+		}
 		// the generator runs the implementation once: cases that call a precompile outside the
 		// specification or execute very many instructions are dropped
 		o := runBlock(t, nil, true)
